@@ -70,7 +70,7 @@ def _both_reference(kind):
 
 
 # directory names are free text: brackets, stars and question marks (what glob takes for patterns), blanks
-PATHNAMES = ["compose-dir", "Foo-1.0-20240102.0[nightly]", "a star * and ? mark"]
+PATHNAMES = ["compose-dir", "Foo-1.0-20240102.0[nightly]", "a star * and ? mark", "nightly-compose", "compose"]
 
 
 def materialise(case, root):
